@@ -105,6 +105,20 @@ def cmd_replay(path):
             v, d = seqcheck.judge_one(script, strict, wd, "replay", meta.get("flavour", "plain"))
         elif mode == "san":
             v, d = seqcheck.judge_one(script, None, wd, "replay", meta.get("flavour", "asan"))
+        elif mode == "rrstat":
+            import rrstat
+            r = rrstat.judge_script(script, wd, "replay")
+            shutil.rmtree(wd, ignore_errors=True)
+            if r.get("infra"):
+                print("replay: infrastructure failure\n" + r["infra"])
+                return 2
+            if r.get("rejected") or not r.get("ok", True):
+                print("replay: rr_cache evictions by insertion rank: %s (capacity %s, %s evictions): the choice is not "
+                      "spread over the residents" % (r.get("hits"), r.get("cap"), r.get("n")))
+                print("VIOLATION property=%s replay=%s" % (prop, path))
+                return 1
+            print("replay: accepted, evictions by insertion rank %s" % r.get("hits"))
+            return 0
         elif mode == "pair":
             ex = meta.get("extra", "none")
             extra = None
@@ -279,6 +293,22 @@ def check_seq(prop, tier):
                                                        .replace(" ", "_SP_") if extra else "none"))
             viol.append("VIOLATION property=%s replay=%s" % (prop, p))
         extra_cov["two_run_differential"] = pair_cov
+
+    # 3c. C15: the spread statistic over long runs (spec/RrStat.tla)
+    if prop == "C15" and not infra:
+        import rrstat
+        rs = rrstat.run(tier, os.path.join(wd, "rrstat"), rng)
+        if rs["infra"]:
+            infra = rs["infra"]
+        extra_cov["spread_statistic"] = rs["runs"]
+        for c, sc, r in rs["violations"][:2]:
+            v2r = rrstat.judge_script(sc, os.path.join(wd, "rrstat"), "again%d" % c)
+            if v2r.get("ok", True):
+                log("spread rejection did not repeat; not reported")
+                continue
+            p = write_replay(prop, sc, ["C15"], "rrstat")
+            log("rr_cache capacity %d: evictions by insertion rank %s" % (c, r["hits"]))
+            viol.append("VIOLATION property=%s replay=%s" % (prop, p))
 
     # 4. full conformance (all tags + SPEC): recorded, never decides
     full = None
